@@ -118,3 +118,65 @@ def run_seeded(prop: str, repo: Path, seed: int = 0) -> dict:
     for m in missed:
         log.append(f"  MISSED: {m}")
     return {"changes": len(dirs), "reported": fired_n, "stale": stale, "missed": missed, "samples": samples, "_log": log}
+
+
+def _refactor_one(args):
+    prop, repo, diff_path, seed = args
+    import json
+
+    from . import udiff
+
+    repo = Path(repo)
+    diff = Path(diff_path).read_text()
+
+    def read(rel):
+        p = repo / rel
+        return p.read_text() if p.exists() else None
+
+    try:
+        overlay = udiff.apply(diff, read)
+    except udiff.PatchError:
+        return Path(diff_path).parent.name, "stale", [], 0
+    known = {f"{k['property']}|{k['rule']}|{k['construct']}" for k in core.load_known() if k.get("status") == "open"}
+    ctx, err = None, None
+    try:
+        sm = SourceModel(repo, overlay=overlay)
+        ctx = core.Ctx(prop, repo, "quick", sm, seed=seed, quiet=True)
+        ctx.overlay = overlay
+        mod = importlib.import_module(f"rules.{prop.lower()}")
+        mod.run(ctx)
+        ctx.check_floors()
+    except Exception as e:  # an analysis that breaks on behaviour-preserving code is a false alarm too
+        err = f"{type(e).__name__}: {str(e)[:120]}"
+    fails = [o for o in (ctx.failures() if ctx else []) if core.finding_key(prop, o) not in known]
+    und = sum(1 for o in (ctx.obligations if ctx else []) if o.undecided)
+    if fails or err:
+        return Path(diff_path).parent.name, "alarm", [f"{o.rule} {o.construct}" for o in fails[:3]] + ([err] if err else []), und
+    return Path(diff_path).parent.name, "silent", [], und
+
+
+def run_refactors(prop: str, repo: Path, seed: int = 0, jobs: int = 8) -> dict:
+    """Negative corpus (thorough tier): every behaviour-preserving refactoring kept under /verif/refactors (all pass
+    the pinned test-suite and generate byte-identical code) is applied *in memory*; this property's rules must stay
+    silent on each of them - no violation, no analysis error."""
+    from concurrent.futures import ProcessPoolExecutor
+
+    root = core.VERIF / "refactors"
+    dirs = sorted(d for d in root.iterdir() if (d / "refactor.diff").exists()) if root.exists() else []
+    jobs_ = [(prop, str(repo), str(d / "refactor.diff"), seed) for d in dirs]
+    alarms, stale, silent, undecided = [], 0, 0, 0
+    log = []
+    if jobs_:
+        with ProcessPoolExecutor(max(1, min(jobs, len(jobs_)))) as ex:
+            for name, verdict, info, und in ex.map(_refactor_one, jobs_):
+                undecided += und
+                if verdict == "stale":
+                    stale += 1
+                elif verdict == "alarm":
+                    alarms.append(f"{name}: {info}")
+                else:
+                    silent += 1
+    log.append(f"refactor corpus {prop}: {len(dirs)} behaviour-preserving change(s), silent={silent}, stale={stale}, false alarms={len(alarms)}, undecided obligations={undecided}")
+    for a in alarms:
+        log.append(f"  FALSE ALARM: {a}")
+    return {"changes": len(dirs), "silent": silent, "stale": stale, "false_alarms": alarms, "undecided_obligations": undecided, "_log": log}
